@@ -81,11 +81,12 @@ class _H(html.parser.HTMLParser):
         self.row = None
         self.cell = -1
         self.open_hl = []
+        self.in_td = False
 
     def handle_starttag(self, tag, attrs):
         self.tags.add(tag)
         if tag in self.VOID:
-            if tag == 'br' and self.row is not None and self.cell == 1:
+            if tag == 'br' and self.row is not None and self.cell == 1 and self.in_td:
                 self.row['text'] += '\n'
             return
         self.stack.append(tag)
@@ -98,6 +99,7 @@ class _H(html.parser.HTMLParser):
             self.tables[-1].append(self.row)
         elif tag == 'td' and self.row is not None:
             self.cell += 1
+            self.in_td = True
         elif tag == 'span' and self.row is not None:
             extra = [k for k in a if k not in ('style', 'title')]
             if extra:
@@ -118,14 +120,19 @@ class _H(html.parser.HTMLParser):
         if tag == 'span' and self.open_hl and self.row is not None:
             st, title = self.open_hl.pop()
             self.row['hl'].append((st, len(self.row['text']), title))
+        elif tag == 'td':
+            self.in_td = False
         elif tag == 'tr':
             self.row = None
 
     def handle_data(self, data):
-        if self.row is not None and self.cell == 0:
+        if not self.in_td or self.row is None:
+            return
+        if self.cell == 0:
             self.row['num'] += data
-        elif self.row is not None and self.cell == 1:
-            self.row['text'] += data
+        elif self.cell == 1:
+            # a line break of the source is <br> followed by a formatting newline: only the tag counts
+            self.row['text'] += data.replace('\n', '')
 
 
 def parse_html(out):
